@@ -127,10 +127,64 @@ def _value(t, e):
     return out
 
 
+def pipeable_stream(t):
+    """a verb object kept by the user - `prep = mutate(...)`, `prep = mutate(...) >> filter(...)` - is a value: composing it with
+    further verbs, or applying it, leaves it unchanged, and applying it later gives what a freshly built one gives"""
+    import pydiverse.transform as pdt
+
+    def mk_single():
+        return pdt.mutate(z=pdt.C.a + 1)
+
+    def mk_chain():
+        return pdt.mutate(z=pdt.C.a + 1) >> pdt.arrange(pdt.C.b)
+
+    def frame(p):
+        df = t >> p >> pdt.export(pdt.Polars())
+        return (df.columns, [repr(x) for x in df.rows()])
+
+    uses = {
+        "compose_right": lambda p: p >> pdt.filter(pdt.C.z > 2) >> pdt.select(pdt.C.z),
+        "compose_right_twice": lambda p: (p >> pdt.filter(pdt.C.z > 2), p >> pdt.select(pdt.C.a)),
+        "compose_left": lambda p: pdt.filter(pdt.C.a > 0) >> p,
+        "apply": lambda p: t >> p,
+        "apply_then_more": lambda p: t >> p >> pdt.filter(pdt.C.z > 2),
+        "apply_to_other_table": lambda p: (t >> pdt.filter(pdt.C.a > 0)) >> p,
+        "compose_and_apply": lambda p: t >> (p >> pdt.select(pdt.C.z)) >> pdt.export(pdt.Polars()),
+    }
+    recs = []
+    for rname, mk in (("verb", mk_single), ("verb_chain", mk_chain)):
+        for uname, use in uses.items():
+            p = mk()
+            before = heapfp.snapshot([p])
+            rec = dict(receiver="pipeable:" + rname, builder=uname)
+            try:
+                use(p)
+                rec["built"] = True
+            except Exception as ex:  # noqa: BLE001
+                rec["built"] = False
+                rec["exc"] = type(ex).__name__
+            ch = list(heapfp.changed(before, heapfp.snapshot([p])))
+            if ch:
+                rec["outcome"] = "changed"
+                rec["detail"] = [str(c)[:200] for c in ch[:4]]
+            else:
+                try:
+                    v1, v2 = frame(p), frame(mk())
+                except Exception as ex:  # noqa: BLE001
+                    v1, v2 = ("error", type(ex).__name__), None
+                if v1 != v2:
+                    rec["outcome"] = "value_changed"
+                    rec["detail"] = [str(v1)[:200], str(v2)[:200]]
+                else:
+                    rec["outcome"] = "unchanged" if rec["built"] else "rejected"
+            recs.append(rec)
+    return recs
+
+
 def run_stream():
     """records: receiver, builder, outcome in unchanged / changed / value_changed / rejected"""
     t = _table()
-    recs = []
+    recs = pipeable_stream(t)
     bl = builders(t)
     for rname, mk in receivers(t):
         for bname, b in bl:
